@@ -68,9 +68,11 @@ ASSUMPTIONS = [
 ]
 FINE_NAMES = bool(os.environ.get("C15_FINE_ORACLE_NAMES"))  # per-class oracle names (calibration runs)
 EPS = 2.3e-16
+FD_NOISE = 16 * EPS  # a-priori rounding of one stencil evaluation relative to the kernel scale (x 1/h)
 TOL_EXACT = 1e-12
 TOL_PSD = 1e-10
 TOL_FD = 1e-6
+FD_GUARD = 30  # a finite-difference component is conclusive only if its self-error is below TOL_FD / FD_GUARD
 
 # classes that declare no input-gradient (no k_and_deriv method) / no theta-gradient
 NO_XGRAD = ("DensityNoise", "ExponentialDensityNoise", "FittedDensityNoise", "QARBF", "SingleRBF", "SingleDot",
@@ -646,11 +648,12 @@ def leaf_name(sp):
             q["theta-gradient"] = q["input-gradient"] = impl + "[order>=4]"
         if o == 0:
             q["value-shape-or-nonfinite"] = impl + "[order=0]"
+            q["call-raises"] = impl + "[order=0]:value-shape-or-nonfinite"  # SpinSym*: the scalar cannot be block-summed
         if cls in _ADDITIVE_V2 and sp["hpstate"] == ["fixed", "free"]:
             q["call(eval_gradient)-raises"] = "DiffAdditiveMixin[length_scale-fixed,scale-free]"
     if cls in ("PartialRBF", "PartialARBF"):
         # k_and_deriv of the partial kernels is one call site: all of its failure modes share one mechanism
-        for r in _K_AND_DERIV_RELS:
+        for r in _K_AND_DERIV_RELS + ("subset-vs-base-input-gradient",):
             q[r] = "%s:k_and_deriv" % cls
     nm.q = q
     return nm
@@ -749,8 +752,8 @@ def _fd5(f, h):
 def _fd_compare(fd, steps, ana, noise):
     """Compare an analytic derivative array with 5-point finite differences fd(h).
 
-    The step is the smallest of `steps` whose a-priori rounding bound (noise / h, noise = 4 eps * value scale) is
-    below TOL_FD / 100 of the derivative scale - truncation error only decreases with h, so this is the most
+    The step is the smallest of `steps` whose a-priori rounding bound (noise / h, noise = FD_NOISE * value scale) is
+    below TOL_FD / 300 (else TOL_FD / FD_GUARD) of the derivative scale - truncation error only decreases with h, so this is the most
     accurate admissible step, and a step much wider than the kernel's features (both estimates ~ 0, agreeing with
     each other but not with the derivative) can never be selected because of its small self-error.
     Returns (self_error, error, scale); self_error = max(|fd(h) - fd(h/2)|, rounding bound) / scale."""
@@ -762,14 +765,30 @@ def _fd_compare(fd, steps, ana, noise):
         sc = max(float(np.max(np.abs(fd(h)))) for h in steps)
         if sc == 0.0:
             return 0.0, 0.0, 0.0
-    h = steps[-1]
-    for hh in steps:
-        if noise / (hh / 2) <= TOL_FD / 100 * sc:
-            h = hh
+    j = None
+    for thr in (TOL_FD / 300, TOL_FD / FD_GUARD):
+        for jj, hh in enumerate(steps):
+            if noise / (hh / 2) <= thr * sc:
+                j = jj
+                break
+        if j is not None:
             break
+    if j is None:
+        return float("inf"), float("nan"), sc
+    h = steps[j]
     d1, d2 = fd(h), fd(h / 2)
     sc = max(sc, float(np.max(np.abs(d2))))
     se = max(float(np.max(np.abs(d2 - d1))), noise / (h / 2)) / sc
+    if j > 0:
+        # every finer candidate must agree within its own (larger) rounding bound: rejects a step in the flat regime
+        # (h much wider than the kernel's features), where fd(h) and fd(h/2) agree with each other (both ~ 0) but not
+        # with the derivative. If even the finest step cannot resolve the derivative scale the component is
+        # inconclusive.
+        if noise / steps[0] >= 0.1 * sc:
+            return float("inf"), float("nan"), sc
+        for jj in range(j):
+            d3 = fd(steps[jj])
+            se = max(se, (float(np.max(np.abs(d2 - d3))) - 3 * noise / steps[jj]) / sc)
     er = float(np.max(np.abs(d2 - ana))) / sc
     return se, er, sc
 
@@ -815,14 +834,14 @@ def theta_gradient(rec, k, name, X, sp, det, st, budget=0.0):
             kk.theta = tt
             return np.asarray(kk(X), dtype=float)
         try:
-            se, er, sc = _fd_compare(lambda h: _fd5(f, h), (1e-2, 2e-3, 5e-4), G[:, :, c], 4 * EPS * max(kscale, budget))
+            se, er, sc = _fd_compare(lambda h: _fd5(f, h), (2e-2, 1e-2, 5e-3, 2e-3, 1e-3, 5e-4), G[:, :, c], FD_NOISE * max(kscale, budget))
         except Exception as e:  # theta setter / call failure
             rec.require(_on("op_returns", name), False, mechanism=_m(name, "theta-setter-raises"),
                         detail={"exception": "%s: %s" % (type(e).__name__, str(e)[:200])})
             st["theta"] = False
             return False, False
         wself = max(wself, se)
-        if se > TOL_FD / 10 or not np.isfinite(se):
+        if not se <= TOL_FD / FD_GUARD:
             continue
         conclusive += 1
         nonzero = nonzero or sc > 1e-12 * kscale
@@ -876,9 +895,9 @@ def input_gradient(rec, k, name, X, Y, sp, det, white, st, budget=0.0):
                 Xp[:, i] = X[:, i] + c * hr
                 return np.asarray(k(Xp, Y), dtype=float)
             return (-f(2) + 8 * f(1) - 8 * f(-1) + f(-2)) / (12 * hr[:, None])
-        se, er, sc = _fd_compare(fd, (3e-2, 3e-3, 3e-4, 3e-5, 3e-6), dk[:, :, i], 4 * EPS * max(kscale, budget))
+        se, er, sc = _fd_compare(fd, (3e-2, 1e-2, 3e-3, 1e-3, 3e-4, 1e-4, 3e-5, 1e-5, 3e-6), dk[:, :, i], FD_NOISE * max(kscale, budget))
         wself = max(wself, se)
-        if se > TOL_FD / 10 or not np.isfinite(se):
+        if not se <= TOL_FD / FD_GUARD:
             continue
         conclusive += 1
         nonzero = nonzero or sc > 0
@@ -1229,7 +1248,15 @@ def run_kernel(rec, rng, sp, nset):
         Xn, Yn = (X, Y) if (node["nfeat"] == d and not _under_transform(sp, node)) else \
             gen_samples(rng, node["nfeat"], min(n, 30), min(m, 30), False, False)[:2]
         node_algebra(rec, node, Xn[:30], Yn[:30], dict(det, node=_brief(node)))
-    name = _node_name(sp)
+    name = _Nm(_node_name(sp))
+    # a gradient failure at the root of a tree that contains a leaf of a configuration class keyed for gradients
+    # (e.g. additive order >= 4, whose leaf-level error can be below the tolerance) is attributed to that class
+    name.q = {}
+    for lf in leaves:
+        for r in ("theta-gradient", "input-gradient"):
+            v = leaf_name(lf).q.get(r)
+            if v and r not in name.q:
+                name.q[r] = v
     leaf_ok = {r: all(lf["_st"].get(r, True) for lf in leaves) for r in ("theta", "x", "diag", "psd", "value")}
     st, res = {}, {"theta": (False, False), "x": (False, False)}
     white = any(c in NOISE or c == "DiffWhiteKernel" for c in leafset)
@@ -1470,9 +1497,9 @@ def _run_dft(case, rec, rng):
                         return np.asarray(dk.get_k(Z), dtype=float)
                     d = (-f(2) + 8 * f(1) - 8 * f(-1) + f(-2)) / (12 * hr)
                     return fac * (d[:, s] if mode == "SEP" else d)
-                noise = 4 * EPS * float(np.max(np.abs(kk))) / float(np.min(X0T[s, j]))
-                se, er, scl = _fd_compare(fd, (1e-2, 1e-3, 1e-4, 1e-5), dkd[:, s, j, :], noise)
-                if se > TOL_FD / 10:
+                noise = FD_NOISE * float(np.max(np.abs(kk))) / float(np.min(X0T[s, j]))
+                se, er, scl = _fd_compare(fd, (1e-2, 3e-3, 1e-3, 3e-4, 1e-4, 3e-5, 1e-5), dkd[:, s, j, :], noise)
+                if not se <= TOL_FD / FD_GUARD:
                     continue
                 concl += 1
                 worst = max(worst, er)
